@@ -5,10 +5,15 @@ import importlib
 import io
 import json
 import os
+import signal
 import sys
 import traceback
 
 sys.setrecursionlimit(10000)
+
+
+class ItemGuardTimeout(BaseException):
+    pass
 
 
 def main():
@@ -18,13 +23,26 @@ def main():
     sys.path.insert(0, os.path.dirname(os.path.dirname(os.path.abspath(__file__))))
     mod = importlib.import_module('harness.' + module)
     f = getattr(mod, func)
+    guard = float(os.environ.get('VERIF_ITEM_GUARD', '0') or 0)
+
+    def on_guard(signum, frame):
+        # a BaseException: code under test (e.g. logging inside a spinning loop) swallows ordinary Exceptions
+        raise ItemGuardTimeout(f'no result within {guard:g} s (wall clock)')
+    if guard > 0:
+        signal.signal(signal.SIGALRM, on_guard)
     for line in sys.stdin:
         line = line.strip()
         if not line:
             continue
         item = json.loads(line)
         try:
-            res = {'ok': f(item)}
+            if guard > 0:
+                signal.setitimer(signal.ITIMER_REAL, guard, 1.0)     # re-armed every second until it gets through
+            try:
+                res = {'ok': f(item)}
+            finally:
+                if guard > 0:
+                    signal.setitimer(signal.ITIMER_REAL, 0)
             bad = False
         except BaseException as e:  # noqa
             tb = traceback.extract_tb(e.__traceback__)
